@@ -138,9 +138,41 @@ fn tier_name(t: Tier) -> &'static str {
     }
 }
 
+std::thread_local! {
+    /// violations of the task running on this thread: (signature, instances,
+    /// text and replay case of the first instance)
+    static VBUF: std::cell::RefCell<Vec<(String, u64, String, J)>> = const { std::cell::RefCell::new(Vec::new()) };
+}
+
+type VBuf = Vec<(String, u64, String, J)>;
+
+fn take_vbuf() -> VBuf {
+    VBUF.with(|b| std::mem::take(&mut *b.borrow_mut()))
+}
+
+/// Report buffered violations in task order, so that the instance that
+/// supplies the text and the replay file of a class is the same in every run.
+fn flush(ctx: &Ctx, bufs: Vec<VBuf>) {
+    for buf in bufs {
+        for (sig, n, what, case) in buf {
+            ctx.violation(&sig, &what, case);
+            for _ in 1..n {
+                ctx.violation(&sig, "", J::Null);
+            }
+        }
+    }
+}
+
 impl Env {
     fn viol(&self, sig: String, what: String, case: J) {
-        self.ctx.violation(&sig, &what, case);
+        VBUF.with(|b| {
+            let mut b = b.borrow_mut();
+            if let Some(e) = b.iter_mut().find(|e| e.0 == sig) {
+                e.1 += 1;
+            } else {
+                b.push((sig, 1, what, case));
+            }
+        })
     }
     fn value_case(&self, v: &Value) -> J {
         json!({"kind": "value", "type": v.mnemonic, "tier": tier_name(self.tier), "index": v.index, "desc": v.desc,
@@ -650,4 +682,793 @@ fn handle_event(env: &Env, ev: Event, lc: &mut Local) {
     }
 }
 
-include!("../c05_part2.rs");
+//------------ EDNS options ---------------------------------------------------------
+
+fn opt_variant<O, N>(o: &AllOptData<O, N>) -> &'static str {
+    match o {
+        AllOptData::Dau(_) => "Dau",
+        AllOptData::Dhu(_) => "Dhu",
+        AllOptData::N3u(_) => "N3u",
+        AllOptData::Chain(_) => "Chain",
+        AllOptData::Cookie(_) => "Cookie",
+        AllOptData::Expire(_) => "Expire",
+        AllOptData::ExtendedError(_) => "ExtendedError",
+        AllOptData::TcpKeepalive(_) => "TcpKeepalive",
+        AllOptData::KeyTag(_) => "KeyTag",
+        AllOptData::Nsid(_) => "Nsid",
+        AllOptData::Padding(_) => "Padding",
+        AllOptData::ClientSubnet(_) => "ClientSubnet",
+        AllOptData::Other(_) => "Other",
+        _ => "?",
+    }
+}
+
+fn compose_option_vec<D: ComposeOptData>(d: &D) -> Result<(u16, Vec<u8>), String> {
+    guard(|| {
+        let mut t = Vec::new();
+        let l = d.compose_len();
+        d.compose_option(&mut t).map(|_| (l, t)).map_err(|_| "append error".to_string())
+    })
+    .and_then(|r| r)
+}
+
+/// Read all options of an Opt back through AllOptData; returns
+/// (variant, code, recomposed data) per option.
+fn opt_value_eq<O: AsRef<[u8]>, N: domain::base::name::ToName>(p: &AllOptData<O, N>, v: &rgen::OptVal) -> bool {
+    use AllOptData as A;
+    match (p, v) {
+        (A::Dau(a), A::Dau(b)) => a == b,
+        (A::Dhu(a), A::Dhu(b)) => a == b,
+        (A::N3u(a), A::N3u(b)) => a == b,
+        (A::Chain(a), A::Chain(b)) => a == b,
+        (A::Cookie(a), A::Cookie(b)) => a == b,
+        (A::Expire(a), A::Expire(b)) => a == b,
+        (A::ExtendedError(a), A::ExtendedError(b)) => a == b && b == a,
+        (A::TcpKeepalive(a), A::TcpKeepalive(b)) => a == b,
+        (A::KeyTag(a), A::KeyTag(b)) => a.as_slice() == b.as_slice(),
+        (A::Nsid(a), A::Nsid(b)) => a.as_slice() == b.as_slice(),
+        (A::Padding(a), A::Padding(b)) => a.as_slice() == b.as_slice(),
+        (A::ClientSubnet(a), A::ClientSubnet(b)) => a == b,
+        (A::Other(a), A::Other(b)) => a.code() == b.code() && a.as_slice() == b.as_slice(),
+        _ => false,
+    }
+}
+
+fn read_options<O: octseq::Octets>(opt: &Opt<O>, orig: &rgen::OptVal) -> Result<Result<Vec<(&'static str, u16, Vec<u8>, bool)>, String>, String> {
+    guard(|| {
+        let mut out = Vec::new();
+        for item in opt.iter::<AllOptData<_, _>>().take(100_000) {
+            let item = item.map_err(|e| e.to_string())?;
+            let mut t = Vec::new();
+            item.compose_option(&mut t).map_err(|_| "append".to_string())?;
+            if item.compose_len() as usize != t.len() {
+                return Err(format!("compose_len {} but {} octets written on re-compose", item.compose_len(), t.len()));
+            }
+            let eq = opt_value_eq(&item, orig);
+            out.push((opt_variant(&item), item.code().to_int(), t, eq));
+        }
+        Ok(out)
+    })
+}
+
+fn check_options(env: &Env, lc: &mut Local) {
+    let items = rgen::opt_items(env.tier);
+    for (idx, it) in items.iter().enumerate() {
+        let case = || json!({"kind": "option", "tier": tier_name(env.tier), "index": idx, "tag": it.tag, "code": it.code, "reference_data_len": it.data.len(), "reference_data_head": hex(&it.data[..it.data.len().min(64)])});
+        let cls: String = it.tag.split(':').next().unwrap_or("").trim_end_matches(char::is_numeric).to_string();
+        let cls = if cls.starts_with("code") { "unknown".to_string() } else { cls.trim_end_matches("(from_octets)").trim_end_matches(char::is_numeric).to_string() };
+        lc.inc(format!("OPTION-{cls}:candidates"));
+        let val = match &it.val {
+            None => {
+                let e = it.refused.clone().unwrap_or_default();
+                lc.inc(format!("OPTION-{cls}:refused"));
+                if e.starts_with("PANIC") {
+                    lc.inc(format!("OPTION-{cls}:refused-by-documented-panic"));
+                }
+                continue;
+            }
+            Some(v) => v,
+        };
+        lc.ev();
+        if it.unrepresentable {
+            env.viol(format!("C05|OPT|option-{cls}|constructor|accepted-should-reject|data>65535"), format!("option {} accepted with {} octets of data", it.tag, it.data.len()), case());
+            continue;
+        }
+        lc.inc(format!("OPTION-{cls}:generated"));
+        // a. compose == reference
+        let (l, d) = match compose_option_vec(val) {
+            Ok(x) => x,
+            Err(e) => {
+                env.viol(format!("C05|OPT|option-{cls}|compose_option|panic|{}", panic_class(&e)), format!("{}: {e}", it.tag), case());
+                continue;
+            }
+        };
+        if d != it.data {
+            env.viol(format!("C05|OPT|option-{cls}|compose_option|differs-from-rfc-reference-encoding"), format!("{}: {}", it.tag, first_diff(&d, &it.data)), case());
+            continue;
+        }
+        if l as usize != d.len() {
+            env.viol(format!("C05|OPT|option-{cls}|compose_len|advertised!=written"), format!("{}: compose_len {l}, wrote {}", it.tag, d.len()), case());
+            continue;
+        }
+        let orig_variant = opt_variant(val);
+        let expect_one = |got: &Result<Result<Vec<(&'static str, u16, Vec<u8>, bool)>, String>, String>, via: &str| -> bool {
+            match got {
+                Err(e) => {
+                    env.viol(format!("C05|OPT|option-{cls}|read-back|panic|{}", panic_class(e)), format!("[{via}] {}: {e}", it.tag), case());
+                    false
+                }
+                Ok(Err(e)) => {
+                    env.viol(format!("C05|OPT|option-{cls}|parse(compose(v))|rejected|{}", err_class(e)), format!("[{via}] the option parser rejects what compose_option wrote for the constructor-accepted {}: {e}", it.tag), case());
+                    false
+                }
+                Ok(Ok(list)) => {
+                    if list.len() != 1 {
+                        env.viol(format!("C05|OPT|option-{cls}|read-back|count!=1"), format!("[{via}] {}: {} options read back", it.tag, list.len()), case());
+                        false
+                    } else if list[0].0 != orig_variant || list[0].1 != it.code {
+                        env.viol(format!("C05|OPT|option-{cls}|read-back|variant-changed"), format!("[{via}] {}: pushed {orig_variant}/{} read {}/{}", it.tag, it.code, list[0].0, list[0].1), case());
+                        false
+                    } else if list[0].2 != it.data {
+                        env.viol(format!("C05|OPT|option-{cls}|parse(compose(v))|not-equal"), format!("[{via}] {}: read-back option re-composes differently: {}", it.tag, first_diff(&list[0].2, &it.data)), case());
+                        false
+                    } else if !list[0].3 {
+                        env.viol(format!("C05|OPT|option-{cls}|parse(compose(v))|not-equal-by-library-eq"), format!("[{via}] {}: the option read back is not equal to the pushed one although it re-composes identically", it.tag), case());
+                        false
+                    } else {
+                        true
+                    }
+                }
+            }
+        };
+        // b. Opt::push + iter
+        if 4 + it.data.len() <= 65535 {
+            lc.ev();
+            let built = guard(|| {
+                let mut o = Opt::<Vec<u8>>::empty();
+                o.push(val).map(|_| o).map_err(|e| e.to_string())
+            });
+            match built {
+                Err(e) => env.viol(format!("C05|OPT|option-{cls}|Opt::push|panic|{}", panic_class(&e)), format!("{}: {e}", it.tag), case()),
+                Ok(Err(e)) => env.viol(format!("C05|OPT|option-{cls}|Opt::push|refused"), format!("{}: {e}", it.tag), case()),
+                Ok(Ok(o)) => {
+                    let mut expect = it.code.to_be_bytes().to_vec();
+                    expect.extend_from_slice(&(it.data.len() as u16).to_be_bytes());
+                    expect.extend_from_slice(&it.data);
+                    let c = compose_vec(&o).unwrap_or_default();
+                    if c != expect {
+                        env.viol(format!("C05|OPT|option-{cls}|Opt::push|octets-differ-from-reference"), format!("{}: {}", it.tag, first_diff(&c, &expect)), case());
+                    } else if expect_one(&read_options(&o, val), "Opt::push") {
+                        // also through the stand-alone record data parser
+                        match parse_alone(41, &c) {
+                            Ok(Ok((AllRecordData::Opt(p), 0))) => {
+                                if expect_one(&read_options(&p, val), "parse_any_rdata") {
+                                    lc.inc(format!("OPTION-{cls}:roundtripped"));
+                                    let mut key = vec![0xFF, 41];
+                                    key.extend_from_slice(&c);
+                                    lc.distinct.push(fnv(&key));
+                                }
+                            }
+                            Ok(Ok(_)) => env.viol(format!("C05|OPT|option-{cls}|parse_any_rdata|not-opt-or-octets-left"), it.tag.clone(), case()),
+                            Ok(Err(e)) => env.viol(format!("C05|OPT|option-{cls}|parse_any_rdata|rejected|{}", err_class(&e)), format!("{}: {e}", it.tag), case()),
+                            Err(e) => env.viol(format!("C05|OPT|option-{cls}|parse_any_rdata|panic|{}", panic_class(&e)), format!("{}: {e}", it.tag), case()),
+                        }
+                    }
+                }
+            }
+        }
+        // c. OptBuilder inside a message
+        if 12 + 11 + 4 + it.data.len() <= 65535 {
+            lc.ev();
+            let built = guard(|| {
+                let mut a = MessageBuilder::new_vec().additional();
+                a.opt(|o| o.push(val)).map(|_| a.finish()).map_err(|e| e.to_string())
+            });
+            match built {
+                Err(e) => env.viol(format!("C05|OPT|option-{cls}|OptBuilder|panic|{}", panic_class(&e)), format!("{}: {e}", it.tag), case()),
+                Ok(Err(e)) => env.viol(format!("C05|OPT|option-{cls}|OptBuilder|refused"), format!("{}: {e}", it.tag), case()),
+                Ok(Ok(msg)) => {
+                    let ok = match w::read_message(&msg) {
+                        Ok(raw) if raw.end == msg.len() && raw.sections[2].len() == 1 && raw.sections[2][0].rtype == 41 => {
+                            let rd = &raw.sections[2][0].rdata;
+                            rd.len() == 4 + it.data.len() && rd[..2] == it.code.to_be_bytes() && rd[2..4] == (it.data.len() as u16).to_be_bytes() && rd[4..] == it.data[..]
+                        }
+                        _ => false,
+                    };
+                    if !ok {
+                        env.viol(format!("C05|OPT|option-{cls}|OptBuilder|message-differs-from-reference"), format!("{}: message {}", it.tag, hex(&msg[..msg.len().min(80)])), case());
+                    } else {
+                        let got = guard(|| -> Result<Vec<(&'static str, u16, Vec<u8>, bool)>, String> {
+                            let m = Message::from_octets(msg.as_slice()).map_err(|e| e.to_string())?;
+                            let rec = m.opt().ok_or("Message::opt() is None")?;
+                            read_options(rec.opt(), val).and_then(|r| r)
+                        });
+                        if expect_one(&got, "OptBuilder+Message::opt") {
+                            lc.inc(format!("OPTION-{cls}:message-roundtrips"));
+                        }
+                    }
+                }
+            }
+        }
+    }
+}
+
+//------------ byte grammar ----------------------------------------------------------
+
+#[derive(Clone, Copy, Debug)]
+enum F {
+    U8,
+    U16,
+    U32,
+    U48,
+    Name,
+    /// octets with one-octet length
+    L8,
+    /// octets with two-octet length
+    L16,
+    /// rest of the RDATA, opaque
+    Rest,
+    Bitmap,
+    A4,
+    A6,
+    Lit(&'static [u8]),
+    SvcParams,
+    Options,
+    /// nothing or one garbage octet
+    Trail,
+}
+
+const QNAME_POS: usize = 12;
+const OWNER_POS: usize = 19;
+
+fn cat(parts: &[&[u8]]) -> Vec<u8> {
+    parts.iter().flat_map(|p| p.iter().cloned()).collect()
+}
+
+fn variants(f: F, full: bool) -> Vec<Vec<u8>> {
+    let ptr = |t: usize| vec![0xC0 | (t >> 8) as u8, t as u8];
+    match f {
+        F::U8 => vec![vec![0], vec![2]],
+        F::U16 => vec![vec![0, 1], vec![255, 255]],
+        F::U32 => vec![vec![0, 0, 0, 1], vec![0x80, 0, 0, 0]],
+        F::U48 => vec![vec![0, 0, 0, 0, 0, 1]],
+        F::Name => {
+            let mut v = vec![vec![1, b'b', 0], ptr(QNAME_POS), vec![0], vec![1, b'B', 0], ptr(OWNER_POS)];
+            if full {
+                v.extend([vec![1], vec![0xC0, 0xFF], vec![2, b'x', b'y', 0xC0, QNAME_POS as u8], vec![0x40, 0]]);
+            } else {
+                v.push(vec![1]);
+            }
+            v
+        }
+        F::L8 => {
+            let mut v = vec![vec![0], vec![2, b'A', b'b'], vec![3, b'A', b'b'], vec![1, b'A', b'b']];
+            if full {
+                v.push(cat(&[&[255], &[b'z'; 255]]));
+            }
+            v
+        }
+        F::L16 => vec![vec![0, 0], vec![0, 2, 7, 7], vec![0, 3, 7, 7], vec![0, 1, 7, 7]],
+        F::Rest => vec![vec![], vec![7], vec![1, 2, 3], vec![9; 12]],
+        F::Bitmap => vec![
+            vec![],
+            vec![0, 1, 0x40],
+            vec![0, 1, 0x40, 1, 2, 0, 1],
+            vec![0, 0],
+            vec![0, 2, 0x40],
+            vec![0, 1, 0x40, 0, 1, 0x40],
+            vec![1, 1, 0x40, 0, 1, 0x40],
+            cat(&[&[0, 33], &[1; 33]]),
+            cat(&[&[255, 32], &[0xff; 32]]),
+            vec![0, 1, 0],
+            vec![0],
+        ],
+        F::A4 => vec![vec![192, 0, 2, 1]],
+        F::A6 => vec![vec![0x20; 16]],
+        F::Lit(b) => vec![b.to_vec()],
+        F::SvcParams => vec![
+            vec![],
+            vec![0, 1, 0, 3, 2, b'h', b'2'],
+            vec![0, 3, 0, 2, 1, 187],
+            vec![0, 1, 0, 3, 2, b'h', b'2', 0, 3, 0, 2, 1, 187],
+            vec![0, 3, 0, 2, 1, 187, 0, 1, 0, 3, 2, b'h', b'2'],
+            vec![0, 1, 0, 3, 2, b'h', b'2', 0, 1, 0, 3, 2, b'h', b'2'],
+            vec![0, 1, 0, 9, 2, b'h'],
+            vec![0, 1, 0, 3, 5, b'h', b'2'],
+            vec![0, 1, 0, 1, 0],
+            vec![0, 0, 0, 2, 0, 1, 0, 1, 0, 3, 2, b'h', b'2'],
+            vec![0, 0, 0, 3, 0, 1, 0],
+            vec![0, 0, 0, 0],
+            vec![0, 2, 0, 0],
+            vec![0, 2, 0, 1, 1],
+            vec![0, 3, 0, 1, 1],
+            vec![0, 3, 0, 3, 1, 2, 3],
+            vec![0, 4, 0, 4, 1, 2, 3, 4],
+            vec![0, 4, 0, 5, 1, 2, 3, 4, 5],
+            vec![0, 4, 0, 0],
+            vec![0, 5, 0, 0],
+            vec![0, 5, 0, 2, 1, 2],
+            cat(&[&[0, 6, 0, 16], &[3; 16]]),
+            vec![0, 6, 0, 4, 1, 2, 3, 4],
+            vec![0, 7, 0, 1, b'/'],
+            vec![0, 8, 0, 0],
+            vec![0, 8, 0, 1, 1],
+            vec![0, 9, 0, 2, 0, 29],
+            vec![0, 9, 0, 3, 0, 29, 0],
+            vec![0, 1],
+            vec![0, 1, 0],
+            vec![0xff, 0xff, 0, 0],
+            vec![0xff, 0xff, 0, 1, 9],
+            vec![0xff, 0, 0, 0, 0xff, 0xff, 0, 0],
+        ],
+        F::Options => vec![
+            vec![],
+            vec![0, 3, 0, 0],
+            vec![0, 3, 0, 2, b'n', b's'],
+            vec![0, 3, 0, 9, 1],
+            vec![0, 3, 0],
+            vec![0, 5, 0, 0],
+            vec![0, 5, 0, 1, 8],
+            vec![0, 5, 0, 2, 8, 13],
+            vec![0, 6, 0, 1, 2],
+            vec![0, 7, 0, 3, 1, 2, 3],
+            vec![0, 8, 0, 4, 0, 1, 0, 0],
+            vec![0, 8, 0, 7, 0, 1, 24, 0, 192, 0, 2],
+            vec![0, 8, 0, 7, 0, 1, 23, 0, 192, 0, 3],
+            vec![0, 8, 0, 8, 0, 1, 24, 0, 192, 0, 2, 0],
+            vec![0, 8, 0, 6, 0, 1, 24, 0, 192, 0],
+            vec![0, 8, 0, 4, 0, 3, 0, 0],
+            vec![0, 8, 0, 5, 0, 2, 8, 0, 0x20],
+            vec![0, 8, 0, 3, 0, 1, 0],
+            vec![0, 9, 0, 0],
+            vec![0, 9, 0, 4, 0, 0, 0, 1],
+            vec![0, 9, 0, 3, 0, 0, 0],
+            vec![0, 9, 0, 5, 0, 0, 0, 0, 0],
+            vec![0, 10, 0, 8, 1, 2, 3, 4, 5, 6, 7, 8],
+            vec![0, 10, 0, 7, 1, 2, 3, 4, 5, 6, 7],
+            cat(&[&[0, 10, 0, 16], &[5; 16]]),
+            cat(&[&[0, 10, 0, 15], &[5; 15]]),
+            cat(&[&[0, 10, 0, 40], &[5; 40]]),
+            cat(&[&[0, 10, 0, 41], &[5; 41]]),
+            vec![0, 11, 0, 0],
+            vec![0, 11, 0, 2, 0, 1],
+            vec![0, 11, 0, 1, 0],
+            vec![0, 11, 0, 3, 0, 1, 0],
+            vec![0, 12, 0, 0],
+            vec![0, 12, 0, 3, 0, 0, 0],
+            vec![0, 13, 0, 1, 0],
+            vec![0, 13, 0, 3, 1, b'a', 0],
+            vec![0, 13, 0, 2, 1, b'a'],
+            vec![0, 13, 0, 2, 0xC0, 12],
+            vec![0, 13, 0, 4, 1, b'a', 0, 0],
+            vec![0, 14, 0, 0],
+            vec![0, 14, 0, 2, 0, 1],
+            vec![0, 14, 0, 3, 0, 1, 0],
+            vec![0, 15, 0, 2, 0, 1],
+            vec![0, 15, 0, 1, 0],
+            vec![0, 15, 0, 4, 0, 1, b'o', b'k'],
+            vec![0, 15, 0, 4, 0, 1, 0xff, 0xfe],
+            vec![0, 3, 0, 1, 1, 0, 12, 0, 1, 0],
+            vec![0xff, 0xff, 0, 0],
+            vec![0xff, 0xff, 0, 2, 1, 2],
+        ],
+        F::Trail => vec![vec![], vec![0xEE]],
+    }
+}
+
+/// The RDATA grammars: (type, field list). Several grammars per type where
+/// the layout depends on a discriminator (IPSECKEY gateway type).
+fn grammars() -> Vec<(u16, Vec<F>)> {
+    use F::*;
+    let mut g: Vec<(u16, Vec<F>)> = vec![
+        (1, vec![A4, Trail]),
+        (1, vec![Lit(&[1, 2, 3])]),
+        (28, vec![A6, Trail]),
+        (28, vec![Lit(&[0; 15])]),
+        (6, vec![Name, Name, U32, U32, U32, U32, U32, Trail]),
+        (6, vec![Name, Name, U32, U32, U32, U32, Lit(&[0, 0, 0])]),
+        (15, vec![U16, Name, Trail]),
+        (15, vec![Lit(&[0])]),
+        (14, vec![Name, Name, Trail]),
+        (17, vec![Name, Name, Trail]),
+        (16, vec![L8, L8, Trail]),
+        (16, vec![]),
+        (13, vec![L8, L8, Trail]),
+        (10, vec![Rest]),
+        (33, vec![U16, U16, U16, Name, Trail]),
+        (35, vec![U16, U16, L8, L8, L8, Name, Trail]),
+        (257, vec![U8, L8, Rest]),
+        (257, vec![U8, Lit(&[3, b'a', b'-', b'b']), Rest]),
+        (43, vec![U16, U8, U8, Rest]),
+        (59, vec![U16, U8, U8, Rest]),
+        (48, vec![U16, U8, U8, Rest]),
+        (60, vec![U16, U8, U8, Rest]),
+        (43, vec![Lit(&[0, 1, 8])]),
+        (48, vec![Lit(&[1, 1, 3])]),
+        (59, vec![Lit(&[0, 1, 8])]),
+        (60, vec![Lit(&[1, 1, 3])]),
+        (46, vec![U16, U8, U8, U32, U32, U32, U16, Name, Rest]),
+        (46, vec![Lit(&[0; 17])]),
+        (47, vec![Name, Bitmap]),
+        (50, vec![U8, U8, U16, L8, L8, Bitmap]),
+        (51, vec![U8, U8, U16, L8, Trail]),
+        (64, vec![U16, Name, SvcParams]),
+        (65, vec![U16, Name, SvcParams]),
+        (52, vec![U8, U8, U8, Rest]),
+        (52, vec![Lit(&[3, 1])]),
+        (44, vec![U8, U8, Rest]),
+        (44, vec![Lit(&[1])]),
+        (45, vec![U8, Lit(&[0]), U8, Rest]),
+        (45, vec![U8, Lit(&[1]), U8, A4, Rest]),
+        (45, vec![U8, Lit(&[2]), U8, A6, Rest]),
+        (45, vec![U8, Lit(&[3]), U8, Name, Rest]),
+        (45, vec![U8, Lit(&[4]), U8, Rest]),
+        (45, vec![U8, Lit(&[1]), U8, Lit(&[192, 0])]),
+        (45, vec![U8, Lit(&[2]), U8, Lit(&[0x20; 15])]),
+        (45, vec![U8, U8]),
+        (61, vec![Rest]),
+        (63, vec![U32, U8, U8, Rest]),
+        (63, vec![U32, U8, U8, Lit(&[4; 11])]),
+        (63, vec![U32, U8, U8, Lit(&[4; 13])]),
+        (250, vec![Name, U48, U16, L16, U16, U16, L16, Trail]),
+        (250, vec![Name, Lit(&[0, 0, 0, 0, 0])]),
+        (41, vec![Options]),
+        (41, vec![Options, Options]),
+        (65280, vec![Rest]),
+        (65280, vec![Name]),
+        (99, vec![L8, Trail]),
+    ];
+    for t in [2u16, 3, 4, 5, 7, 8, 9, 12, 39] {
+        g.push((t, vec![Name, Trail]));
+    }
+    g
+}
+
+/// header, question "b. A IN", one answer: owner -> pointer to the qname.
+fn wrap_message(rtype: u16, rdata: &[u8]) -> Vec<u8> {
+    let mut m = vec![0x12, 0x34, 0x84, 0, 0, 1, 0, 1, 0, 0, 0, 0];
+    m.extend_from_slice(&[1, b'b', 0, 0, 1, 0, 1]);
+    debug_assert_eq!(m.len(), OWNER_POS);
+    m.extend_from_slice(&[0xC0, QNAME_POS as u8]);
+    m.extend_from_slice(&rtype.to_be_bytes());
+    m.extend_from_slice(&[0, 1, 0, 0, 0, 60]);
+    m.extend_from_slice(&(rdata.len() as u16).to_be_bytes());
+    m.extend_from_slice(rdata);
+    m
+}
+
+fn rtype_label(rtype: u16) -> String {
+    if matches!(rtype, 65280 | 99) {
+        "UNKNOWN".into()
+    } else {
+        Rtype::from_int(rtype).to_string()
+    }
+}
+
+fn check_bytes(env: &Env, rtype: u16, b: &[u8], lc: &mut Local) {
+    let t = rtype_label(rtype);
+    let msg = wrap_message(rtype, b);
+    let case = || json!({"kind": "bytes", "rtype": rtype, "rdata": hex(b), "message": hex(&msg)});
+    lc.ev();
+    lc.inc(format!("BYTES-{t}:cases"));
+    // parse(b)
+    let m = match guard(|| Message::from_octets(msg.as_slice()).map_err(|e| e.to_string())) {
+        Ok(Ok(m)) => m,
+        Ok(Err(e)) => {
+            env.viol(format!("C05|{t}|bytes|harness-message-rejected"), e, case());
+            return;
+        }
+        Err(e) => {
+            env.viol(format!("C05|{t}|bytes|Message::from_octets|panic|{}", panic_class(&e)), e, case());
+            return;
+        }
+    };
+    let parsed = guard(|| -> Result<Rd, String> {
+        let rec = m.answer().map_err(|e| e.to_string())?.next().ok_or("no record")?.map_err(|e| e.to_string())?;
+        let rec = rec.to_any_record::<PRd>().map_err(|e| e.to_string())?;
+        // flatten into owned octets for later comparison
+        use domain::base::name::FlattenInto;
+        rec.into_data().try_flatten_into().map_err(|_: std::convert::Infallible| String::new())
+    });
+    let p: Rd = match parsed {
+        Err(e) => {
+            env.viol(format!("C05|{t}|bytes|parse|panic|{}", panic_class(&e)), format!("parsing RDATA {} panicked: {e}", hex(b)), case());
+            return;
+        }
+        Ok(Err(_)) => {
+            lc.inc(format!("BYTES-{t}:rejected"));
+            return;
+        }
+        Ok(Ok(p)) => p,
+    };
+    lc.inc(format!("BYTES-{t}:accepted"));
+    // compose(parse(b))
+    let b2 = match compose_vec(&p) {
+        Ok(x) => x,
+        Err(e) => {
+            env.viol(format!("C05|{t}|bytes|compose(parse(b))|panic|{}", panic_class(&e)), format!("RDATA {}: {e}", hex(b)), case());
+            return;
+        }
+    };
+    match guard(|| p.rdlen(false)) {
+        Ok(Some(n)) if n as usize != b2.len() => {
+            env.viol(format!("C05|{t}|bytes|rdlen(false)|advertised!=written"), format!("RDATA {}: rdlen {n}, wrote {}", hex(b), b2.len()), case());
+            return;
+        }
+        Err(e) => {
+            env.viol(format!("C05|{t}|bytes|rdlen|panic|{}", panic_class(&e)), format!("RDATA {}: {e}", hex(b)), case());
+            return;
+        }
+        _ => {}
+    }
+    if let Err(e) = compose_canonical_vec(&p) {
+        env.viol(format!("C05|{t}|bytes|compose_canonical_rdata|panic|{}", panic_class(&e)), format!("RDATA {}: {e}", hex(b)), case());
+        return;
+    }
+    // parse(compose(parse(b))) == parse(b)
+    match parse_alone(rtype, &b2) {
+        Err(e) => env.viol(format!("C05|{t}|bytes|parse(compose(parse(b)))|panic|{}", panic_class(&e)), format!("RDATA {}: {e}", hex(b)), case()),
+        Ok(Err(e)) => env.viol(
+            format!("C05|{t}|bytes|parse(compose(parse(b)))|rejected|{}", err_class(&e)),
+            format!("RDATA {} is accepted, re-composes to {} which the parser rejects: {e}", hex(b), hex(&b2)),
+            case(),
+        ),
+        Ok(Ok((p2, remaining))) => {
+            let eq = guard(|| (p2 == p, p == p2));
+            if remaining != 0 {
+                env.viol(format!("C05|{t}|bytes|parse(compose(parse(b)))|octets-left-unparsed"), format!("RDATA {} -> {}", hex(b), hex(&b2)), case());
+            } else if eq != Ok((true, true)) {
+                env.viol(format!("C05|{t}|bytes|parse(compose(parse(b)))|not-equal"), format!("RDATA {} -> {}: {eq:?}; {:?} vs {:?}", hex(b), hex(&b2), p, p2), case());
+            } else {
+                match compose_vec(&p2) {
+                    Ok(b3) if b3 == b2 => {
+                        lc.inc(format!("BYTES-{t}:roundtripped"));
+                        let mut key = vec![0xFE];
+                        key.extend_from_slice(&rtype.to_be_bytes());
+                        key.extend_from_slice(b);
+                        lc.distinct.push(fnv(&key));
+                    }
+                    Ok(b3) => env.viol(format!("C05|{t}|bytes|compose-not-idempotent"), format!("RDATA {} -> {} -> {}", hex(b), hex(&b2), hex(&b3)), case()),
+                    Err(e) => env.viol(format!("C05|{t}|bytes|compose(p2)|panic|{}", panic_class(&e)), e, case()),
+                }
+            }
+        }
+    }
+    // and through a compressing message
+    lc.ev();
+    match build_message(&p, Target::Static, &[vec![1, b'b', 0]]) {
+        Err(e) => env.viol(format!("C05|{t}|bytes|message-push|panic|{}", panic_class(&e)), format!("RDATA {}: {e}", hex(b)), case()),
+        Ok(Err(e)) => env.viol(format!("C05|{t}|bytes|message-push|refused"), format!("RDATA {}: {e}", hex(b)), case()),
+        Ok(Ok(msg2)) => {
+            let r = guard(|| -> Result<bool, String> {
+                let raw = w::read_message(&msg2)?;
+                if raw.end != msg2.len() {
+                    return Err("RDLENGTH != octets that follow".into());
+                }
+                let m = Message::from_octets(msg2.as_slice()).map_err(|e| e.to_string())?;
+                let last = m.answer().map_err(|e| e.to_string())?.last().ok_or("no record")?.map_err(|e| e.to_string())?;
+                let rec = last.to_any_record::<PRd>().map_err(|e| e.to_string())?;
+                Ok(rec.data() == &p)
+            });
+            match r {
+                Ok(Ok(true)) => lc.inc(format!("BYTES-{t}:message-roundtrips")),
+                Ok(Ok(false)) => env.viol(format!("C05|{t}|bytes|message-read|not-equal"), format!("RDATA {}", hex(b)), case()),
+                Ok(Err(e)) => env.viol(format!("C05|{t}|bytes|message-read|rejected|{}", err_class(&e)), format!("RDATA {}: {e}", hex(b)), case()),
+                Err(e) => env.viol(format!("C05|{t}|bytes|message-read|panic|{}", panic_class(&e)), format!("RDATA {}: {e}", hex(b)), case()),
+            }
+        }
+    }
+}
+
+fn run_grammar(env: &Env, rtype: u16, fields: &[F], lc: &mut Local) -> u64 {
+    let full = env.tier == Tier::Thorough;
+    let menus: Vec<Vec<Vec<u8>>> = fields.iter().map(|f| variants(*f, full)).collect();
+    let sizes: Vec<usize> = menus.iter().map(|m| m.len()).collect();
+    let mut n = 0;
+    if sizes.is_empty() {
+        check_bytes(env, rtype, &[], lc);
+        return 1;
+    }
+    product(&sizes, |idx| {
+        let b: Vec<u8> = idx.iter().enumerate().flat_map(|(f, &k)| menus[f][k].iter().cloned()).collect();
+        check_bytes(env, rtype, &b, lc);
+        n += 1;
+    });
+    n
+}
+
+//------------ main ------------------------------------------------------------------
+
+fn tier_from(s: &str) -> Tier {
+    match s {
+        "thorough" => Tier::Thorough,
+        "compact" => Tier::Compact,
+        _ => Tier::Quick,
+    }
+}
+
+fn replay(env: &Env, path: &str) {
+    let text = std::fs::read_to_string(path).expect("replay file");
+    let j: J = serde_json::from_str(&text).expect("json");
+    let case = &j["case"];
+    let mut lc = Local::default();
+    println!("replaying {}", case);
+    match case["kind"].as_str() {
+        Some("value") => {
+            let (mn, idx) = (case["type"].as_str().unwrap_or(""), case["index"].as_u64().unwrap_or(0));
+            let tier = tier_from(case["tier"].as_str().unwrap_or("quick"));
+            let env2 = Env { ctx: env.ctx.clone(), stats: Stats::new(), tier };
+            for g in rgen::generators().into_iter().filter(|g| g.mnemonic == mn) {
+                // one shard per candidate index: only `idx` is constructed
+                g.run(tier, idx as usize, usize::MAX, &mut |ev| {
+                    if let Event::Value(v) = &ev {
+                        println!("value: {}\n  data: {:?}\n  reference rdata ({} octets): {}", v.desc, v.data, v.wire.len(), hex(&v.wire[..v.wire.len().min(128)]));
+                    }
+                    handle_event(&env2, ev, &mut lc);
+                });
+            }
+        }
+        Some("bytes") => {
+            let rtype = case["rtype"].as_u64().unwrap_or(0) as u16;
+            check_bytes(env, rtype, &unhex(case["rdata"].as_str().unwrap_or("")), &mut lc);
+        }
+        Some("option") => {
+            let tier = tier_from(case["tier"].as_str().unwrap_or("quick"));
+            let env2 = Env { ctx: env.ctx.clone(), stats: Stats::new(), tier };
+            // options are few: re-run all of them
+            check_options(&env2, &mut lc);
+        }
+        _ => println!("unknown replay kind"),
+    }
+    println!("counters: {:?}", lc.c);
+    flush(&env.ctx, vec![take_vbuf()]);
+}
+
+fn main() {
+    let ctx = Ctx::new("C05", "exploration");
+    let tier = if ctx.quick() { Tier::Quick } else { Tier::Thorough };
+    let env = Env { ctx: ctx.clone(), stats: Stats::new(), tier };
+    if let Some(path) = ctx.replay.clone() {
+        replay(&env, &path);
+        ctx.finish(json!({"evaluations": 1, "distinct_nontrivial": 0, "rule": "replay", "samples": [], "exhaustive": false}), &["replay of a single case"]);
+    }
+    let wd = Watchdog::start(ctx.clone(), std::time::Duration::from_secs(120), |d| {
+        format!("C05|{}|hang", d["type"].as_str().unwrap_or("?"))
+    });
+
+    // 1. values
+    let gens = rgen::generators();
+    let mut tasks: Vec<(usize, usize, usize)> = Vec::new();
+    for (gi, g) in gens.iter().enumerate() {
+        let n = match g.mnemonic {
+            "RRSIG" | "TSIG" | "SOA" => 256,
+            "NAPTR" | "NSEC3" | "SVCB" | "HTTPS" | "SRV" | "IPSECKEY" => 32,
+            _ => 8,
+        };
+        for s in 0..n {
+            tasks.push((gi, s, n));
+        }
+    }
+    let merged = std::sync::Mutex::new(Local::default());
+    let cands = std::sync::Mutex::new(BTreeMap::<&'static str, u64>::new());
+    let vbufs: Vec<VBuf> = tasks.par_iter().map(|&(gi, shard, n)| {
+        let g = &gens[gi];
+        let mut lc = Local::default();
+        let _ = take_vbuf();
+        let total = g.run(tier, shard, n, &mut |ev| {
+            wd.enter(|| match &ev {
+                Event::Value(v) => json!({"kind": "value", "type": v.mnemonic, "tier": tier_name(tier), "index": v.index, "desc": v.desc}),
+                _ => json!({"type": g.mnemonic}),
+            });
+            handle_event(&env, ev, &mut lc);
+            wd.leave();
+        });
+        cands.lock().unwrap().insert(g.mnemonic, total);
+        let mut m = merged.lock().unwrap();
+        for (k, v) in lc.c {
+            *m.c.entry(k).or_insert(0) += v;
+        }
+        m.evals += lc.evals;
+        env.stats.distinct_many(lc.distinct);
+        drop(m);
+        take_vbuf()
+    }).collect();
+    flush(&ctx, vbufs);
+    // samples: candidate 1 of every type, taken serially (deterministic)
+    for g in &gens {
+        g.run(tier, 1, usize::MAX, &mut |ev| {
+            if let Event::Value(v) = ev {
+                env.stats.sample(64, || json!({"value": v.desc, "rdata_len": v.wire.len(), "rdata_head": hex(&v.wire[..v.wire.len().min(24)])}));
+            }
+        });
+    }
+
+    // 2. options
+    {
+        let mut lc = Local::default();
+        wd.enter(|| json!({"type": "OPTIONS"}));
+        check_options(&env, &mut lc);
+        wd.leave();
+        let mut m = merged.lock().unwrap();
+        for (k, v) in lc.c {
+            *m.c.entry(k).or_insert(0) += v;
+        }
+        m.evals += lc.evals;
+        env.stats.distinct_many(lc.distinct);
+        drop(m);
+        flush(&ctx, vec![take_vbuf()]);
+    }
+
+    // 3. byte grammars
+    let grams = grammars();
+    let byte_cases = std::sync::atomic::AtomicU64::new(0);
+    let vbufs: Vec<VBuf> = grams.par_iter().map(|(rtype, fields)| {
+        let mut lc = Local::default();
+        let _ = take_vbuf();
+        wd.enter(|| json!({"type": format!("BYTES-{rtype}")}));
+        let n = run_grammar(&env, *rtype, fields, &mut lc);
+        wd.leave();
+        byte_cases.fetch_add(n, std::sync::atomic::Ordering::Relaxed);
+        let mut m = merged.lock().unwrap();
+        for (k, v) in lc.c {
+            *m.c.entry(k).or_insert(0) += v;
+        }
+        m.evals += lc.evals;
+        env.stats.distinct_many(lc.distinct);
+        drop(m);
+        take_vbuf()
+    }).collect();
+    flush(&ctx, vbufs);
+
+    // report
+    let m = merged.into_inner().unwrap();
+    let mut per_type: BTreeMap<String, BTreeMap<String, u64>> = BTreeMap::new();
+    for (k, v) in &m.c {
+        let (t, what) = k.split_once(':').unwrap_or((k.as_str(), ""));
+        per_type.entry(t.to_string()).or_default().insert(what.to_string(), *v);
+    }
+    for (t, n) in cands.into_inner().unwrap() {
+        per_type.entry(t.to_string()).or_default().insert("candidates".into(), n);
+    }
+    let sum = |suffix: &str| -> u64 {
+        m.c.iter().filter(|(k, _)| k.ends_with(suffix) && !k.starts_with("BYTES-") && !k.starts_with("OPTION-")).map(|(_, v)| *v).sum()
+    };
+    let sum_in = |prefix: &str, suffix: &str| -> u64 { m.c.iter().filter(|(k, _)| k.ends_with(suffix) && k.starts_with(prefix)).map(|(_, v)| *v).sum() };
+    println!("{:<12} {:>9} {:>9} {:>9} {:>12} {:>9}", "type", "cand", "generated", "refused", "roundtripped", "msg-rt");
+    for (t, c) in &per_type {
+        let g = |k: &str| c.get(k).cloned().unwrap_or(0);
+        println!("{:<12} {:>9} {:>9} {:>9} {:>12} {:>9}", t, g("candidates") + g("cases"), g("generated") + g("accepted"), g("refused") + g("rejected"), g("roundtripped"), g("message-roundtrips"));
+    }
+    ctx.finish(
+        json!({
+            "evaluations": m.evals,
+            "distinct_nontrivial": env.stats.distinct_count(),
+            "rule": "distinct (type, reference RDATA) of non-empty values that completed the stand-alone round trip, plus distinct option encodings that round-tripped, plus distinct (type, RDATA octets) of grammar strings the parser accepted and that round-tripped; hashed with FNV-1a over type and octets",
+            "exhaustive": true,
+            "tier_menus": tier_name(tier),
+            "values_generated": sum(":generated"),
+            "values_refused_by_constructor": sum(":refused"),
+            "values_roundtripped": sum(":roundtripped"),
+            "message_roundtrips": sum(":message-roundtrips"),
+            "byte_grammar_cases": byte_cases.load(std::sync::atomic::Ordering::Relaxed),
+            "byte_grammar_accepted": sum_in("BYTES-", ":accepted"),
+            "byte_grammar_rejected": sum_in("BYTES-", ":rejected"),
+            "byte_grammar_roundtripped": sum_in("BYTES-", ":roundtripped"),
+            "options_generated": sum_in("OPTION-", ":generated"),
+            "options_refused_by_constructor": sum_in("OPTION-", ":refused"),
+            "options_roundtripped": sum_in("OPTION-", ":roundtripped"),
+            "values_accepted_without_wire_representation": sum(":accepted-unrepresentable"),
+            "values_zone_dispatch_roundtripped": sum(":zone-roundtripped"),
+            "per_type": per_type,
+            "canonical_lowercase_table": CANONICAL_LOWERCASE,
+            "may_compress_table": MAY_COMPRESS,
+            "samples": env.stats.samples(),
+        }),
+        &[
+            "values off the per-field boundary menus are not covered (DESIGN C05 L.)",
+            "the reference encodings are written in mc::rgen from the RFC layouts; the library's Eq is used in addition to, not instead of, octet comparison",
+            "messages above 65535 octets are not built: values whose RDATA leaves no room for header and owner are checked stand-alone only (counted as message-skipped-over-65535)",
+            "ClientSubnet prefixes above the address length are clamped by the constructor; the reference clamps identically (RFC 7871 gives no encoding for them)",
+        ],
+    );
+}
